@@ -154,8 +154,15 @@ def run_case(case, ctx):
         ctx.notes["float_case_within_rounding_of_a_tie_not_judged"] += 1
         return
     ctx.set_backend(case["compiled"])
-    st1, st2 = ps.trains(case)
-    ps.prime(ctx, case, (st1, st2), (pyspike.spike_sync_profile, pyspike.spike_sync))
+    sts = ps.trains(case)
+    ps.prime(ctx, case, sts, (pyspike.spike_sync_profile, pyspike.spike_sync))
+    ps.judge_twice(case, ctx, sts, _judge)
+
+
+def _judge(case, ctx, sts):
+    import numpy as np
+    import pyspike
+    st1, st2 = sts
     a, b, T0, T1, m, mt, pairs, ties = _facts(case)
     kw = ps.kw(case)
     ctx.check(O.one_to_one(pairs), "oracle_pairs_not_one_to_one", "model error?")
